@@ -1605,7 +1605,14 @@ func (ft *FuncTr) update(cur *Term, path []PathElem, nv *Term) *Term {
 func (ft *FuncTr) store(st *State, at *Term, pv Val, ty types.Type, v *Term, pos token.Pos, what string) {
 	if pv.Ref != nil {
 		cur := ft.localGet(st, pv.Ref.alloc)
-		st.locals[pv.Ref.alloc] = ft.update(cur, pv.Ref.path, v)
+		nt := ft.update(cur, pv.Ref.path, v)
+		if len(nt.S) > 1500 {
+			// a struct value rebuilt field by field nests the previous value once per field: name it to keep terms linear
+			c := ft.d.Fresh("l_"+pv.Ref.alloc.Comment+"_u", nt.Sort)
+			ft.assume(at, Eq(c, nt))
+			nt = c
+		}
+		st.locals[pv.Ref.alloc] = nt
 		return
 	}
 	if pv.Imm != nil {
